@@ -215,6 +215,25 @@ Definition tgunzip (z : bytes) : option bytes :=
 Fixpoint bs (s : string) : bytes :=
   match s with EmptyString => [] | String a t => Ascii.N_of_ascii a :: bs t end.
 
+(* arbitrary byte strings are written (hx "0a1f..."), runs (rep x n), pseudo-random blocks (lcg seed n) - the same
+   linear congruential generator the driver uses - and pieces of a let-bound stream (slice off len d) *)
+Definition hexval (a : Ascii.ascii) : N :=
+  let n := Ascii.N_of_ascii a in if N.ltb n 58 then N.sub n 48 else N.sub n 87.
+Fixpoint hx (s : string) : bytes :=
+  match s with
+  | String a (String b t) => N.add (N.mul 16 (hexval a)) (hexval b) :: hx t
+  | _ => []
+  end.
+Definition rep (x n : N) : bytes := repeat x (N.to_nat n).
+Fixpoint lcg_aux (n : nat) (x : N) : bytes :=
+  match n with
+  | O => []
+  | S k => let x' := N.modulo (N.add (N.mul x 1103515245) 12345) 2147483648 in
+           N.modulo (N.div x' 65536) 256 :: lcg_aux k x'
+  end.
+Definition lcg (seed n : N) : bytes := lcg_aux (N.to_nat n) seed.
+Definition slice (off len : N) (d : bytes) : bytes := take len (drop off d).
+
 Definition bytes_eqb (a b : bytes) : bool := if list_eq_dec N.eq_dec a b then true else false.
 Definition obytes_eqb (a b : option bytes) : bool :=
   match a, b with Some x, Some y => bytes_eqb x y | None, None => true | _, _ => false end.
